@@ -268,8 +268,8 @@ fn run_once_raw<N: Name>(reg: &Registry, root: (u32, u32), choose: &ChooseMode, 
 // loop inside the solver) is abandoned - its thread keeps spinning until the process exits - and reported
 // as the result "(hang)" together with the provider events recorded so far.  After MAX_HANGS abandoned
 // runs the remaining runs are not started and not emitted (result "(skipped)").
-pub const HANG_SECS: u64 = 5;
-const MAX_HANGS: usize = 8;
+pub const HANG_SECS: u64 = 20;
+const MAX_HANGS: usize = 6;
 static HANGS: std::sync::atomic::AtomicUsize = std::sync::atomic::AtomicUsize::new(0);
 type Task = Box<dyn FnOnce(&Slot) -> RunOut + Send>;
 struct Worker { tx: std::sync::mpsc::Sender<Task>, rx: std::sync::mpsc::Receiver<RunOut>, slot: Slot }
